@@ -8,7 +8,9 @@ MC = "model_checking"
 #   cat (level category), ref (DESIGN.md section), tech (technique), text (level_claimed.text), note (level_note)
 # a property without a fragment is listed under not_applicable (reason from tools/manifest/NA.json if present)
 CHECKS = {}
-for pid in ALL:
+# only checks the lead has run and reviewed on the unchanged tree are claimed (tools/manifest/ENABLED)
+ENABLED = open(os.path.join(V, "tools", "manifest", "ENABLED")).read().split()
+for pid in ENABLED:
     p = os.path.join(V, "tools", "manifest", pid + ".json")
     if os.path.exists(p):
         CHECKS[pid] = json.load(open(p))
